@@ -58,6 +58,19 @@ theorem parseDoc_toStr (e : Elem) (hwf : e.wf = true) :
   rw [skipSpace_noop_lt hd0 c33]; simp only [Res.ok_bind]
   exact root_rt e.toStr e hwf ⟨1, 0, 0⟩ [] hd
 
+/-- the scan over the body of the header line `<?xml version="1.0" encoding="UTF-8"?>` (34 bytes without a
+    line break or `?`) ends behind its `?>` -/
+theorem piInner_header (t body rest : Bytes) (hlen : 39 ≤ t.length)
+    (hd2 : t.drop 2 = body ++ 63 :: 62 :: 10 :: rest)
+    (hidx : idxOf isPiScanStop (body ++ 63 :: 62 :: 10 :: rest) = some 34)
+    (HD36 : t.drop 36 = 63 :: 62 :: 10 :: rest) (HD37 : t.drop 37 = 62 :: 10 :: rest) :
+    piInner t (t.length + 1 + 1) ⟨1, 0, 0⟩ ⟨1, 2, 0⟩ = .ok ⟨1, 38, 0⟩ := by
+  rw [piInner, cstr_le (show (Pos.mk 1 2 0).pos ≤ t.length by simp; omega)]; simp only [Res.ok_bind]
+  rw [hd2, hidx]; simp only
+  rw [peek_drop (show t.drop (2 + 34) = 63 :: 62 :: 10 :: rest from HD36)]; simp only [Res.ok_bind]
+  rw [if_pos trivial, peek_drop (show t.drop (2 + 34 + 1) = 62 :: 10 :: rest from HD37)]; simp only [Res.ok_bind]
+  rw [if_pos trivial]
+
 /-- parsing `Xml::toString` (header line + element) of a well-formed tree -/
 theorem parseDoc_docToStr (e : Elem) (hwf : e.wf = true) :
     ∃ e', parseDoc (docToStr e) = .ok e' ∧ e'.shape = e.shape := by
@@ -78,13 +91,8 @@ theorem parseDoc_docToStr (e : Elem) (hwf : e.wf = true) :
   have hidx : idxOf isPiScanStop ([120, 109, 108, 32, 118, 101, 114, 115, 105, 111, 110, 61, 34, 49, 46, 48, 34, 32, 101,
       110, 99, 111, 100, 105, 110, 103, 61, 34, 85, 84, 70, 45, 56, 34] ++ 63 :: 62 :: 10 :: e.toStr) = some 34 :=
     idxOf_append_hit _ _ _ _ (by decide) (by decide)
-  have hpi : piInner t (t.length + 1 + 1) ⟨1, 0, 0⟩ ⟨1, 2, 0⟩ = .ok ⟨1, 38, 0⟩ := by
-    simp only [piInner]
-    rw [cstr_le (show (Pos.mk 1 2 0).pos ≤ t.length by simp; omega)]; simp only [Res.ok_bind]
-    rw [hd2, hidx]; simp only
-    rw [peek_drop (show t.drop (2 + 34) = 63 :: 62 :: 10 :: e.toStr from HD36)]; simp only [Res.ok_bind]
-    rw [if_pos trivial, peek_drop (show t.drop (2 + 34 + 1) = 62 :: 10 :: e.toStr from HD37)]; simp only [Res.ok_bind]
-    rw [if_pos trivial]
+  have hpi : piInner t (t.length + 1 + 1) ⟨1, 0, 0⟩ ⟨1, 2, 0⟩ = .ok ⟨1, 38, 0⟩ :=
+    piInner_header t _ e.toStr (by omega) (by simpa using hd2) hidx HD36 HD37
   have hsk : skipSpace t ⟨1, 38, 0⟩ = .ok (⟨2, 39, 39⟩, none) := by
     unfold skipSpace
     have : ∀ f0, skipLoop t (f0 + 1 + 1) false ⟨1, 38, 0⟩ none = .ok (⟨2, 39, 39⟩, none) := by
